@@ -36,6 +36,14 @@ structure Cfg where
       like a short header does (`io.EOF`), instead of failing the load (`io.ErrUnexpectedEOF`);
       read from both sites: the size pre-check and the `io.ReadFull` error mapping -/
   shortPayloadIsEOF : Bool
+  /-- `readNextBlock` takes a block header whose `CompressedSize` field is 0 for the end of the
+      data (`io.EOF`): what a power loss leaves when the file size reached the disk but the data
+      did not; a real block is never empty -/
+  zeroSizeIsEOF : Bool
+  /-- `readNextBlock` takes a block that does not parse (`ParseBlock` error), whose payload ends in
+      a zero byte and behind which only zero bytes follow up to the end of the file, for the end
+      of the data (`zeroFilledTail`) -/
+  zeroTailIsEOF : Bool
   /-- `ParseBlock` bounds the decoder's declared output length before decompressing -/
   boundsDecodedLen : Bool
   /-- `ParseBlock` requires the counted entries to consume the whole decoded payload (so the
@@ -51,6 +59,9 @@ structure Cfg where
   /-- `openExistingFile` walks the block headers and truncates the file behind the last block that
       is entirely there (a torn tail would hide every block appended after it) -/
   openCutsTornTail : Bool
+  /-- the torn-tail walk of `openExistingFile` also stops at a block header whose size field is 0
+      (the zero-filled tail the reader takes for the end of the data) -/
+  openStopsAtZeroSize : Bool
   /-- `chroniclerV2.Write` tells its caller when `WriteEntry` refused an entry (it has a result that
       carries the refusal); `false`: the refusal is only logged and the entry silently dropped -/
   chronSurfacesError : Bool
@@ -64,7 +75,7 @@ structure Cfg where
 def goodCfg : Cfg :=
   { rejectsEmptyKey := true, rejectsLongKey := true, flushGe := true, flushAtCount := true,
     deleteRemoves := true, validatesCrc := true, validatesULen := true, boundsCompressedSize := true,
-    boundsDecodedLen := true, parseConsumesAll := true, shortPayloadIsEOF := true, chronSurfacesError := true, apiValidatesKeys := true, apiBoundsNameLength := true, tuiListsAll := true, openCutsTornTail := true, v2Fallback := true, rejectsLongName := true }
+    boundsDecodedLen := true, parseConsumesAll := true, shortPayloadIsEOF := true, zeroSizeIsEOF := true, zeroTailIsEOF := true, openStopsAtZeroSize := true, chronSurfacesError := true, apiValidatesKeys := true, apiBoundsNameLength := true, tuiListsAll := true, openCutsTornTail := true, v2Fallback := true, rejectsLongName := true }
 
 /-- canonical error classes of the reader -/
 inductive Err where
@@ -90,6 +101,9 @@ structure Codec extends Decoder where
   /-- what the encoder emits declares a length a decoder can plausibly reach (snappy expands at
       most 64 bytes per 3 input bytes) -/
   declOk : ∀ x, declLen (enc x) ≤ 32 * (enc x).length + 64
+  /-- something is never encoded to nothing (snappy's output starts with the uvarint of the
+      length): a written block never has the size field 0 the reader takes for the end -/
+  nonempty : ∀ x, x ≠ [] → enc x ≠ []
 
 abbrev Checksum := Bytes → UInt32
 
@@ -101,6 +115,7 @@ def idCodec : Codec where
   law := fun _ => rfl
   grow := fun x => by omega
   declOk := fun x => by omega
+  nonempty := fun _ h => h
 
 def crc0 : Checksum := fun _ => 0
 
